@@ -56,8 +56,15 @@ VARIABLES
 vars == <<cfg, pc, amb, ext, log, work>>
 
 FWrap == {"opt", "ref", "box", "arc", "erased", "assert"}
+\* forms of the same thing (level A does not tell them apart):
+\*   leaf / fnleaf: a closure (`from_fn`) or a plain `fn` pointer as filter / destination;
+\*   none / always: Option::None or `filter::always()`;
+\*   the field wf of wrap / wrapfn: the wrapping given by value ("owned"), borrowed ("ref":
+\*   `Wrapping for &T`) or type-erased ("erased": `&(dyn ErasedWrapping + Send + Sync)`);
+\*   the entry "rt_with": the event put together with with_props / with_mdl / with_extent
+LeafOps == {"leaf", "fnleaf"}
 Strippable == {"ref", "box", "arc", "erased", "assert"}
-Pipeline == {"rt", "rt_as_emitter", "core", "macro", "macro_evt", "macro_lvl", "evt_macro",
+Pipeline == {"rt", "rt_with", "rt_as_emitter", "core", "macro", "macro_evt", "macro_lvl", "evt_macro",
              "span_evt", "metric_evt", "span_guard", "span_macro"}
 \* entries whose event gets its extent from two readings of the runtime's clock (at start
 \* and at completion); the configuration's `extent` is not used by them
@@ -141,8 +148,8 @@ Eff(c) == IF c.csf.op # "absent" THEN c.csf ELSE c.rtf
 
 RECURSIVE Truth(_, _)
 Truth(f, ev) ==
-    CASE f.op = "leaf" -> PredHolds(f.p, ev)
-      [] f.op = "none" -> TRUE
+    CASE f.op \in LeafOps -> PredHolds(f.p, ev)
+      [] f.op \in {"none", "always"} -> TRUE
       [] f.op \in FWrap -> Truth(f.t, ev)
       [] f.op = "and" -> Truth(f.l, ev) /\ Truth(f.r, ev)
       [] f.op = "or" -> Truth(f.l, ev) \/ Truth(f.r, ev)
@@ -151,8 +158,8 @@ Truth(f, ev) ==
 \* self evaluates to false then other will be evaluated"
 RECURSIVE InvA(_, _)
 InvA(f, ev) ==
-    CASE f.op = "leaf" -> <<f.id>>
-      [] f.op = "none" -> <<>>
+    CASE f.op \in LeafOps -> <<f.id>>
+      [] f.op \in {"none", "always"} -> <<>>
       [] f.op \in FWrap -> InvA(f.t, ev)
       [] f.op = "and" -> InvA(f.l, ev) \o (IF Truth(f.l, ev) THEN InvA(f.r, ev) ELSE <<>>)
       [] f.op = "or" -> InvA(f.l, ev) \o (IF Truth(f.l, ev) THEN <<>> ELSE InvA(f.r, ev))
@@ -160,7 +167,7 @@ InvA(f, ev) ==
 \* destinations behind present, passing branches, with the event each must receive
 RECURSIVE Reach(_, _)
 Reach(e, ev) ==
-    CASE e.op = "leaf" -> {[id |-> e.id, ev |-> ev]}
+    CASE e.op \in LeafOps -> {[id |-> e.id, ev |-> ev]}
       [] e.op = "none" -> {}
       [] e.op \in FWrap -> Reach(e.t, ev)
       [] e.op = "and" -> Reach(e.l, ev) \cup Reach(e.r, ev)
@@ -173,7 +180,7 @@ Reach(e, ev) ==
 
 RECURSIVE LeafIds(_)
 LeafIds(e) ==
-    CASE e.op = "leaf" -> {e.id}
+    CASE e.op \in LeafOps -> {e.id}
       [] e.op = "none" -> {}
       [] e.op \in FWrap -> LeafIds(e.t)
       [] e.op = "and" -> LeafIds(e.l) \cup LeafIds(e.r)
@@ -183,7 +190,7 @@ LeafIds(e) ==
 \* the order between branches is not specified)
 RECURSIVE WrapInv(_, _)
 WrapInv(e, ev) ==
-    CASE e.op \in {"leaf", "none"} -> {}
+    CASE e.op \in LeafOps \cup {"none"} -> {}
       [] e.op \in FWrap -> WrapInv(e.t, ev)
       [] e.op = "and" -> WrapInv(e.l, ev) \cup WrapInv(e.r, ev)
       [] e.op = "wrap" ->
@@ -195,6 +202,14 @@ WrapInv(e, ev) ==
       [] e.op = "rt" ->
             {InvA(e.f, Rebuilt(e, ev))[i] : i \in 1..Len(InvA(e.f, Rebuilt(e, ev)))}
             \cup (IF Truth(e.f, Rebuilt(e, ev)) THEN WrapInv(e.t, Rebuilt(e, ev)) ELSE {})
+
+\* blocking_flush: a tree has flushed when every destination in it has (all of the model's
+\* destinations flush at once; None and Empty have nothing to flush)
+RECURSIVE FlushA(_)
+FlushA(e) ==
+    CASE e.op \in LeafOps \cup {"none"} -> TRUE
+      [] e.op = "and" -> FlushA(e.l) /\ FlushA(e.r)
+      [] OTHER -> FlushA(e.t)
 
 \* removing the reference / box / arc / erasure layers
 RECURSIVE Strip(_)
@@ -214,8 +229,8 @@ Strip(t) ==
 \* Filter::matches of every combinator (core/src/filter.rs): result and consulted leaves
 RECURSIVE Eval(_, _)
 Eval(f, ev) ==
-    CASE f.op = "leaf" -> [res |-> PredHolds(f.p, ev), inv |-> <<f.id>>]
-      [] f.op = "none" -> [res |-> TRUE, inv |-> <<>>]            \* Empty.matches
+    CASE f.op \in LeafOps -> [res |-> PredHolds(f.p, ev), inv |-> <<f.id>>]
+      [] f.op \in {"none", "always"} -> [res |-> TRUE, inv |-> <<>>]            \* Empty.matches
       [] f.op \in FWrap -> Eval(f.t, ev)                          \* (**self).matches(evt)
       [] f.op = "and" ->                                          \* l.matches(&evt) && r.matches(&evt)
             LET l == Eval(f.l, ev)
@@ -293,7 +308,7 @@ Dispatch ==
     /\ LET top == Head(work)
            e == top.t
            rest == Tail(work)
-       IN CASE e.op = "leaf" ->
+       IN CASE e.op \in LeafOps ->
                  /\ log' = Append(log, [t |-> "e", id |-> e.id, ev |-> top.ev])
                  /\ work' = rest
             [] e.op = "none" -> log' = log /\ work' = rest               \* Empty.emit
@@ -384,6 +399,7 @@ Prediction(c) ==
         leaves |-> LeafIds(c.em),
         eff |-> IF pipe THEN InvA(Eff(c), ev) ELSE <<>>,
         wraps |-> IF ok THEN WrapInv(c.em, ev) ELSE {},
+        flush |-> FlushA(c.em),
         bypass |-> ~pipe]
 
 EmitReplay ==
